@@ -82,7 +82,8 @@ pub fn char_index_to_position(content: &str, char_index: usize) -> Position {
         }
     }
 
-    let character = char_index - last_line_start;
+    // LSP columns are measured in UTF-16 code units, not bytes
+    let character = text_before[last_line_start..].encode_utf16().count();
 
     Position {
         line: line as u32,
